@@ -22,7 +22,7 @@ from fractions import Fraction
 from harness import core
 
 MANIFEST_ENTRY = {
-    "text": "Lean theorems over an executable model of the summary aggregation: C14_partial (for every program list without the two reserved names and every world the real code accepts, every simulation count, both retention settings and every enumeration order of every directory scan, the run completes and both summary tables are a permutation of one row per (program, simulation) computed from that pair's own files), guard_exact / C14_rejected (the run raises exactly when some pair wrote a file the statistics reject; for the mapper's statistics an estimate file without data rows), runAll_closed_form, once_each, own_files_only, perm_invariant, retention_invariant, estimate_floor, estJoin_perm_invariant, cost_ratios, cost_once_each, concrete_mit_cell / concrete_cost_cell / cost_ratios_concrete (the two cost columns are the pair's own sum of mitigated emissions and sum of daily cost), batch_sizes_sum, batch_sizes_le_five, batch_sims_eq_range, yearly_shares_complete / window_complete / C14_yearly_partial (the yearly shares of frames of closed records add up to their values, leap years included), year_length / feb_length (calendar facts of the model's ordinals), genAll_frame / legacy_rows_preserved (rows of earlier batches are carried over unchanged and new rows do not depend on them), contribution_measured / contribution_same_type / contribution_fallback / fallback_is_not_mean_of_type_means (extrapolation of the estimate to unmeasured sites: own type's measured average, else the average over all measured sites, which is not the mean of the type means), runInFolder_eq_runAll / C14_history / uncleared_folder_keeps_stale_rows (run-history level: initialize_outputs clears the folder, so after any history of runs from any prior folder state the tables hold exactly the last run's pairs; without the clean-up every old row survives). C14_counterexample, C14_counterexample_logs, C14_counterexample_zero_rows refute the unrestricted statement (program named kept..., program named Logs, a file without rows); C14_yearly_counterexample refutes share completeness for open-ended records. The model is tied to the real SimulationManager batch loops (debug and multiprocessing), SummaryOutputManager, summary_outputs, summary_output_helpers, summary_output_mapper and batch_simulations by running them over generated program folders with os.scandir permuted independently per call and comparing both summary files and the folder contents after every batch and the cost summary at the end with the compiled model driven by the recorded listings (single runs through the real initialize_outputs and histories of two or three runs into the same output folder, the model keeping its folder state), and with the theorem-level run function on the same world; a direct oracle recomputes every statistic from the pair's own generated data and re-runs every world under a second enumeration order.",
+    "text": "Lean theorems over an executable model of the summary aggregation: C14_partial (for every program list without the two reserved names and every world the real code accepts, every simulation count, both retention settings and every enumeration order of every directory scan, the run completes and both summary tables are a permutation of one row per (program, simulation) computed from that pair's own files), guard_exact / C14_rejected (the run raises exactly when some pair wrote a file the statistics reject; for the mapper's statistics an estimate file without data rows), runAll_closed_form, once_each, own_files_only, perm_invariant, retention_invariant, estimate_floor, estJoin_perm_invariant, cost_ratios, cost_once_each, concrete_mit_cell / concrete_cost_cell / cost_ratios_concrete (the two cost columns are the pair's own sum of mitigated emissions and sum of daily cost), batch_sizes_sum, batch_sizes_le_five, batch_sims_eq_range, yearly_shares_complete / window_complete / C14_yearly_partial / C14_yearly (the yearly shares of a frame add up to its values, leap years and records without end date included), year_length / feb_length (calendar facts of the model's ordinals), genAll_frame / legacy_rows_preserved (rows of earlier batches are carried over unchanged and new rows do not depend on them), contribution_measured / contribution_same_type / contribution_fallback / fallback_is_not_mean_of_type_means (extrapolation of the estimate to unmeasured sites: own type's measured average, else the average over all measured sites, which is not the mean of the type means), runInFolder_eq_runAll / C14_history / uncleared_folder_keeps_stale_rows (run-history level: initialize_outputs clears the folder, so after any history of runs from any prior folder state the tables hold exactly the last run's pairs; without the clean-up every old row survives). C14_counterexample, C14_counterexample_logs, C14_counterexample_zero_rows refute the unrestricted statement (program named kept..., program named Logs, a file without rows); C14_yearly proves share completeness for closed and open-ended records of the repaired code (e320a70). The model is tied to the real SimulationManager batch loops (debug and multiprocessing), SummaryOutputManager, summary_outputs, summary_output_helpers, summary_output_mapper and batch_simulations by running them over generated program folders with os.scandir permuted independently per call and comparing both summary files and the folder contents after every batch and the cost summary at the end with the compiled model driven by the recorded listings (single runs through the real initialize_outputs and histories of two or three runs into the same output folder, the model keeping its folder state), and with the theorem-level run function on the same world; a direct oracle recomputes every statistic from the pair's own generated data and re-runs every world under a second enumeration order.",
     "design_ref": "DESIGN.md 5.14",
     "note": "trusted: Lean kernel + propext/Classical.choice/Quot.sound; the hand-written model (tied by sampled correspondence, not proof); harness adapter and generators; pandas read_csv/to_csv, merge, groupby and NumPy's percentile as reference semantics (the percentile is an uninterpreted function of the column in the model and is evaluated with NumPy on the column the model names); numbers restricted to a grid on which float arithmetic is exact (CSV float round-trip drift of non-dyadic values is outside the model); row order inside a summary file and the Summary Files switches are not modelled (one world per switch setting is compared per run); a rejected file stops the real run inside a call while the model only flags the call",
     "technique": "Lean 4 closed-form/permutation proofs over a directory-listing model + differential correspondence with the real aggregation code under permuted os.scandir + direct recomputation oracle",
@@ -101,13 +101,15 @@ def boundary_interval(rng, years, hi):
 
 def gen_intervals(rng, years, count, p_open=0.15, quirk=False):
     """`count` (start, end|None, zero_value) triples of one frame such that every yearly share the
-    real code computes is dyadic: closed intervals have power-of-two lengths; an open end is assumed
-    by the code to be Dec 31 of the latest recorded end year of the frame (or of the queried year if
-    there is none), so open rows start a power of two before that day.  quirk: an open row that
-    starts after that day (the code then divides by a negative day count)."""
+    real code computes is dyadic: closed intervals have power-of-two lengths; an open end is taken by
+    the code to be Dec 31 of the latest year recorded in the frame (any start or end date), so open
+    rows start a power of two before that day.  quirk: every closed row ends before the last
+    simulated year and the open rows start in it (the shape on which the unrepaired code divided by
+    zero / by a negative day count, regression input of e320a70)."""
     lo = dt.date(years[0] - 1, 7, 1)
     hi = dt.date(years[-1], 12, 31)
     span = (hi - lo).days
+    quirk = quirk and len(years) > 1
     n_open = sum(1 for _ in range(count) if rng.random() < p_open)
     if quirk and count >= 2:
         n_open = max(1, min(n_open, count - 1))
@@ -115,37 +117,33 @@ def gen_intervals(rng, years, count, p_open=0.15, quirk=False):
     for i in range(count - n_open):
         end = lo + dt.timedelta(days=rng.randint(0, span))
         if n_open and not quirk and i == 0:
-            # an open end is then assumed at the end of the last simulated year
+            # the latest year of the frame is then the last simulated year
             end = dt.date(years[-1], 1, 1) + dt.timedelta(days=rng.randint(0, 364))
-        if quirk and n_open and len(years) > 1 and rng.random() < 0.5:
-            end = min(end, dt.date(years[-1] - 1, 12, 31))
+        if quirk and n_open:
+            end = min(end, dt.date(years[-1] - 1, 12, 31) - dt.timedelta(days=rng.choice([0, 0, 1, 40])))
         start = end - dt.timedelta(days=2 ** rng.randint(0, 9) - 1)
-        if not (n_open and i == 0) and rng.random() < 0.35:
+        if not (n_open and (i == 0 or quirk)) and rng.random() < 0.35:
             start, end = boundary_interval(rng, years, hi)
             ctx_boundary[0] += 1
         closed.append((start, end, False))
     out = list(closed)
     if n_open:
-        if closed:
-            ymax = max(e.year for (_, e, _) in closed)
-            last = dt.date(ymax, 12, 31)
-            for i in range(n_open):
-                if quirk and i == 0 and last < hi - dt.timedelta(days=3):
-                    room = (hi - last).days - 1
-                    k = rng.randint(0, max(0, min(8, room.bit_length() - 1)))
-                    start = last + dt.timedelta(days=1 + 2 ** k)
-                    if start > hi:
-                        start = last + dt.timedelta(days=2)
-                    out.append((start, None, False))
-                else:
-                    out.append((last - dt.timedelta(days=2 ** rng.randint(0, 9) - 1), None, False))
+        if closed and not quirk:
+            last = dt.date(max(e.year for (_, e, _) in closed), 12, 31)
+        elif closed:
+            last = hi
         else:
-            for _ in range(n_open):
-                if len(years) == 1:
-                    last = dt.date(years[0], 12, 31)
-                    out.append((last - dt.timedelta(days=2 ** rng.randint(0, 9) - 1), None, False))
-                else:
-                    out.append((lo + dt.timedelta(days=rng.randint(0, span)), None, True))
+            last = dt.date(rng.choice(years), 12, 31)
+        for i in range(n_open):
+            # the first open row starts in the year of `last` itself (that year is the latest of the frame);
+            # in quirk mode it may start on Jan 1 (the unrepaired code divided by zero there)
+            k = rng.randint(0, 8) if (i == 0 and (quirk or not closed)) else rng.randint(0, 9)
+            start = last - dt.timedelta(days=2 ** k - 1)
+            if quirk and i == 0 and rng.random() < 0.4:
+                # Jan 1 of the year after the latest recorded end (start year = latest year = end year: the
+                # share is the whole value whatever the length; the unrepaired code divided by zero here)
+                start = dt.date(last.year, 1, 1) + dt.timedelta(days=rng.choice([0, 0, 1, 31]))
+            out.append((start, None, False))
     rng.shuffle(out)
     return out
 
@@ -602,54 +600,21 @@ def _short(t):
 # ----------------------------------------------------------------------------------------------
 def o_yearly(rows, year):
     """rows = (value, start|None, end|None): value x days of [start, end] inside the year / days of
-    [start, end]; an open end lasts until Dec 31 of the latest recorded end year of the frame (the
-    code's convention), but never ends before the record's own start year"""
-    ends = [e for (_, _, e) in rows if e is not None]
+    [start, end]; a record without end date is still active when the data ends: it lasts until Dec 31
+    of the latest year recorded in the frame (any start or end date)"""
+    dates = [d for (_, s_, e) in rows for d in (s_, e) if d is not None]
     total = Fraction(0)
     for (v, s, e) in rows:
         if s is None:
             continue
         if e is None:
-            y = max(x.year for x in ends) if ends else year
-            e = dt.date(max(y, s.year), 12, 31)
+            e = dt.date(max(x.year for x in dates), 12, 31)
         if not (s.year <= year <= e.year):
             continue
         a = max(s, dt.date(year, 1, 1))
         b = min(e, dt.date(year, 12, 31))
         total += Fraction(v) * Fraction((b - a).days + 1, (e - s).days + 1)
     return total
-
-
-def open_end_quirk(rows, years):
-    """the frame has an open-ended record although its latest recorded end date lies in a year
-    before the last simulated year: the code then assumes the open record ends before a queried
-    year (or even before the record starts)"""
-    ends = [e for (_, _, e) in rows if e is not None]
-    if not ends:
-        return False
-    return max(x.year for x in ends) < years[-1] and any(e is None and s is not None for (_, s, e) in rows)
-
-
-def quirk_columns(world, f):
-    """which kinds of yearly columns of this pair's row are affected by the open-end quirk"""
-    years = world["years"]
-    out = set()
-    em = f["emis"]
-    if open_end_quirk([(r[0], D(r[6]), D(r[7])) for r in em], years):
-        out.add('"True" Mitigated Emissions')
-    if open_end_quirk([(r[1], D(r[5]), D(r[6])) for r in em], years):
-        out.add('"True" Emissions')
-    frames = []
-    if f.get("est") is not None:
-        sites = {}
-        for r in f["est"]:
-            sites.setdefault(r[0], []).append((r[3], D(r[4]), D(r[5])))
-        frames += list(sites.values())
-    if f.get("rep") not in (None, "EMPTY"):
-        frames.append([(r[0], D(r[1]), D(r[2])) for r in f["rep"]])
-    if any(open_end_quirk(fr, years) for fr in frames):
-        out.add('"Estimated" Emissions')
-    return out
 
 
 def o_extrapolated(est, year):
@@ -779,10 +744,7 @@ def oracle(ctx, world, result, inp, second=None):
             if row != exp:
                 bad = [i for i, (a, b) in enumerate(zip(row, exp)) if a != b]
                 cols = ts_cols if name == "ts" else em_cols
-                qc = quirk_columns(world, world["files"]["%s|%s" % k])
-                if all(cols[i].startswith("Year ") and cols[i].split(" ", 2)[2].split(" (")[0] in qc for i in bad):
-                    sig = "C14:yearly-share:open-ended-record"
-                elif all("Estimated" in cols[i] and "Year" in cols[i] for i in bad):
+                if all("Estimated" in cols[i] and "Year" in cols[i] for i in bad):
                     sig = "C14:stat:estimate-minus-own-correction"
                 elif all("Year" in cols[i] for i in bad):
                     sig = "C14:stat:yearly-share"
